@@ -153,11 +153,16 @@ namespace l2cap {
 
         if ( code == connection_parameter_update_response_code && pending_status_ == transmitted )
         {
-            pending_status_ = idle;
-            identifier_ = static_cast< std::uint8_t >( identifier_ + 1 );
-
-            if ( identifier_ == invalid_identifier )
+            // only the response to the outstanding request completes the procedure,
+            // responses with an other identifier are silently discarded
+            if ( in_size >= 2 && input[ 1 ] == identifier_ )
+            {
+                pending_status_ = idle;
                 identifier_ = static_cast< std::uint8_t >( identifier_ + 1 );
+
+                if ( identifier_ == invalid_identifier )
+                    identifier_ = static_cast< std::uint8_t >( identifier_ + 1 );
+            }
 
             out_size = 0;
         }
